@@ -85,6 +85,7 @@ func (e *Engine) VerifyFunc(fn *ssa.Function, ct *spec.FuncContract) (res *FuncR
 	}
 	for _, fv := range fn.FreeVars {
 		bind(fv, fv.Name())
+		delete(f.params, fv.Name()) // the source name of a captured variable denotes its content (see bodyEnv)
 	}
 	f.entryNames = map[string]Val{}
 	for k, v := range f.params {
